@@ -3,6 +3,7 @@ import Hv.Qcow2
 import Hv.Qcow2Spec
 import Hv.Qcow2Stream
 import Hv.Prim.Inflate
+import Hv.Footprint
 namespace Hv.Driver
 open Hv
 
@@ -110,6 +111,22 @@ def qcow2Cmd (st : St) : List String → String
       | .ok none => "bad-args"
       | .error e => s!"err {e}"
     | _, _ => "bad-args"
+  | "qcow2.footprint" :: align :: off :: len :: layers =>
+    -- C13: the file ranges `_read(off, len)` of a single-layer image may look at (HvProofs/FootprintQcow2.lean:
+    -- qcow2_read_footprint); `m=` image file with every L2 entry widened to its L2 table (what the real code transfers),
+    -- `d=` data file, `o=` the L1 table (the model loads it at open, the real code on first use), `fm=`/`tm=` the
+    -- image-file footprint of the theorem and its total, `bm=` its bound (io_bound_tables), `td=` total of `d`
+    match align.toNat?, off.toNat?, len.toNat?, qcowChain st (align.toNat?.getD 8192) layers with
+    | some _, some o, some l, .ok (some q) =>
+      if q.backing.isSome then "err unsupported"
+      else
+        let pr := fun (rs : Footprint.Ranges) => ",".intercalate (rs.map fun r => s!"{r.1}:{r.2}")
+        let fm := Footprint.qcow2Meta q o l
+        let fd := Footprint.qcow2Data q o l
+        s!"ok hdr={if q.hdrOkb then 1 else 0} df={if q.hasDataFile then 1 else 0};m={pr (Footprint.qcow2MetaIO q o l)};d={pr fd};o={q.l1Offset}:{8 * q.l1Size};fm={pr fm};tm={Footprint.total fm};bm={(16 + 2 ^ (q.clusterBits - 8) * 512) * (l / q.cs + 2)};td={Footprint.total fd}"
+    | _, _, _, .ok none => "bad-args"
+    | _, _, _, .error e => s!"err {e}"
+    | _, _, _, _ => "bad-args"
   | "qcow2.stream" :: align :: nl :: rest =>
     match align.toNat?, nl.toNat? with
     | some a, some k =>
